@@ -101,6 +101,10 @@ func main() {
 	case "rules": // -profile c20|c27|c28 restricts the run to one property's parts; -n 0 = tier default (250 / 3000)
 		RulesOnly = *profile
 		writeJSON(*out, RulesMode(*seed, *n, *tier, *driver, *keep))
+	case "orders":
+		writeJSON(*out, OrdersMode(*seed, *n, *tier, *driver, *keep))
+	case "orders-replay":
+		writeJSON(*out, OrdersReplay(*trace, *driver, *keep))
 	case "campaign":
 		res := Campaign(*profile, *seed, *n, *tier, *driver, *keep, *par)
 		writeJSON(*out, res)
